@@ -1248,17 +1248,20 @@ class partition_unique(Stream):
             return x[self.key]
 
     def update(self, x, who=None, metadata=None):
-        self._retain_refs(metadata)
         y = self._get_key(x)
         if self.keep == "last":
             # remove key if already present so that emitted value
             # will reflect elements' actual relative ordering
             self._buffer.pop(y, None)
-            self._metadata_buffer.pop(y, None)
+            dropped = self._metadata_buffer.pop(y, None)
+            if dropped:
+                self._release_refs(dropped)
+            self._retain_refs(metadata)
             self._buffer[y] = x
             self._metadata_buffer[y] = metadata
         else:  # self.keep == "first"
             if y not in self._buffer:
+                self._retain_refs(metadata)
                 self._buffer[y] = x
                 self._metadata_buffer[y] = metadata
         if len(self._buffer) == self.n:
@@ -1459,17 +1462,20 @@ class timed_window_unique(Stream):
             return x[self.key]
 
     def update(self, x, who=None, metadata=None):
-        self._retain_refs(metadata)
         y = self._get_key(x)
         if self.keep == "last":
             # remove key if already present so that emitted value
             # will reflect elements' actual relative ordering
             self._buffer.pop(y, None)
-            self._metadata_buffer.pop(y, None)
+            dropped = self._metadata_buffer.pop(y, None)
+            if dropped:
+                self._release_refs(dropped)
+            self._retain_refs(metadata)
             self._buffer[y] = x
             self._metadata_buffer[y] = metadata
         else:  # self.keep == "first"
             if y not in self._buffer:
+                self._retain_refs(metadata)
                 self._buffer[y] = x
                 self._metadata_buffer[y] = metadata
         return self.last
